@@ -99,3 +99,69 @@ Fixpoint holds_from (hist : list op) (tr : list (op * obs)) : bool :=
   end.
 
 Definition holds (tr : list (op * obs)) : bool := holds_from [] tr.
+
+(* ------------------------------------------------------------------ *)
+(* The public layer (ChainService.BanPeer / UnbanPeer / IsBanned), in the
+   same vocabulary: the store operation a public call amounts to (none if
+   its address is not an IP), and what IsBanned must answer — the banned bit
+   of the store-level spec for the parsed address's network, given the
+   history of public calls alone. *)
+Definition lower (o : pop) : list op :=
+  match o with
+  | PBan p r now dur =>
+    match parse_ipnet p None with Some n => [Ban n r now dur] | None => [] end
+  | PUnban p =>
+    match parse_ipnet p None with Some n => [Unban n] | None => [] end
+  | PIsBanned p now =>
+    match parse_ipnet p None with Some n => [Status n now] | None => [] end
+  end.
+
+Definition lower_all (h : list pop) : list op := flat_map lower h.
+
+Definition banned_bit (o : obs) : bool :=
+  match o with OStatus b _ _ => b | _ => false end.
+
+(* THE SPEC of IsBanned after the public history [h], for an address whose
+   host parses to [p], asked at clock reading [q] *)
+Definition public_spec (h : list pop) (p : bytes) (q : Z) : bool :=
+  match parse_ipnet p None with
+  | Some n =>
+    match encode n with
+    | Some k => banned_bit (spec_status (lower_all h) k q)
+    | None => false
+    end
+  | None => false
+  end.
+
+(* clock readings of a public history: those of parseable calls (the others
+   never reach the store) *)
+Definition ptimes (h : list pop) : list Z := times (lower_all h).
+
+(* two ParseIP results denote one IP address (4-byte and 16-byte forms) *)
+Definition same_ip (p1 p2 : bytes) : Prop := to16 p1 = to16 p2 /\ to16 p1 <> None.
+
+(* whether BanPeer / UnbanPeer on this address can succeed *)
+Definition addr_ok (p : bytes) : bool :=
+  match parse_ipnet p None with
+  | Some n => match encode n with Some _ => true | None => false end
+  | None => false
+  end.
+
+(* monitor for traces of the public entries: every IsBanned answer is the
+   spec's for the history of public calls before it; BanPeer / UnbanPeer
+   succeed exactly on addresses that denote a network *)
+Fixpoint pholds_from (hist : list pop) (tr : list (pop * pobs)) : bool :=
+  match tr with
+  | [] => true
+  | (o, ob) :: rest =>
+    let ok :=
+      match o, ob with
+      | PIsBanned p q, PAns b => Bool.eqb b (public_spec hist p q)
+      | PBan p _ _ _, POk | PUnban p, POk => addr_ok p
+      | PBan p _ _ _, PErr | PUnban p, PErr => negb (addr_ok p)
+      | _, _ => false
+      end in
+    ok && pholds_from (hist ++ [o]) rest
+  end.
+
+Definition pholds (tr : list (pop * pobs)) : bool := pholds_from [] tr.
